@@ -525,6 +525,64 @@ def marker_bounded(ctx):
     ctx.ob(RULE, "misnested-a", bad is None and k >= 2, bad or "error, adoption agency, entry removed if still listed, element removed from the stack", "html5ever tree_builder handle_misnested_a_tags")
 
 
+def insert_an_element(ctx):
+    """insert an HTML element: ONE element is created from the arguments as they are (no prefix, the given namespace, name,
+    attributes, duplicate flag), inserted at the appropriate place (no override target), pushed on the stack of open elements
+    exactly when asked to, and returned.  insert_at hands LastChild / BeforeSibling / TableFosterParenting to the matching sink
+    call with the same node"""
+    key, pcs = nfq.cells(ctx, TB, "TreeBuilder<Handle,Sink>::insert_element")
+    bad = None
+    n = 0
+    for pc in nfq.feasible(pcs):
+        acts = _acts(pc)
+        names = [a for a, _ in acts]
+        if "panic!" in names:
+            continue
+        n += 1
+        ce = [args for a, args in acts if a == "call create_element_with_flags"]
+        if len(ce) != 1 or ce[0] != ("self.sink", "new(None,p2,p3)", "p4", "p5"):
+            bad = "the element is created as %s, not from (no prefix, the namespace, name, attributes and duplicate flag handed in)" % (ce[:1],)
+            continue
+        elem = "create_element_with_flags(%s)" % ",".join(ce[0])
+        ap = [args for a, args in acts if a == "self.appropriate_place_for_insertion"]
+        ia = [args for a, args in acts if a == "self.insert_at"]
+        if ap != [("None",)] or len(ia) != 1 or ia[0] != ("self.appropriate_place_for_insertion(None)", "AppendNode(%s)" % elem):
+            bad = "the element is not inserted exactly once at the appropriate place for inserting a node (%s / %s)" % (ap[:1], ia[:1])
+        push = gval_push(pc["guards"])
+        pushes = [args for a, args in acts if a == "self.push"]
+        if push is None or (push and pushes != [(elem,)]) or (not push and pushes):
+            bad = "push flag %s but pushes %s" % (push, pushes)
+        if push and names.index("self.push") < names.index("self.insert_at"):
+            bad = "the element is pushed before it is inserted"
+        if str(pc["ret"]) != elem:
+            bad = "the function answers %s, not the element it inserted" % str(pc["ret"])[:60]
+    ctx.ob(RULE, "insert-an-element", bad is None and n >= 8, bad or "%d paths: created from the arguments, inserted at the appropriate place, pushed iff Push, returned" % n, "html5ever tree_builder insert_element")
+    key, pcs = nfq.cells(ctx, TB, "TreeBuilder<Handle,Sink>::insert_at")
+    bad = None
+    seen = set()
+    want = {"LastChild": ("self.sink.append", ("p1.0", "p2")), "BeforeSibling": ("self.sink.append_before_sibling", ("p1.0", "p2")), "TableFosterParenting": ("self.sink.append_based_on_parent_node", ("p1.0", "p1.1", "p2"))}
+    for pc in nfq.feasible(pcs):
+        kind = [re.match(r"p1 matches (\w+)", g).group(1) for g, v in pc["guards"].items() if v and re.match(r"p1 matches (\w+)", g)]
+        acts = _acts(pc)
+        if len(kind) != 1 or kind[0] not in want:
+            continue
+        seen.add(kind[0])
+        a, args = want[kind[0]]
+        got = [(x, tuple(re.sub(r"p1\.(element|parent|sibling)$", "p1.0", re.sub(r"p1\.prev_element$", "p1.1", y)) for y in ar)) for x, ar in acts]
+        if got != [(a, args)]:
+            bad = "insertion point %s leads to %s, not to %s%s" % (kind[0], got[:2], a, args)
+    ctx.ob(RULE, "insert-at", bad is None and seen == set(want), bad or "LastChild -> append, BeforeSibling -> append_before_sibling, TableFosterParenting -> append_based_on_parent_node(table, previous element, child)",
+           "html5ever tree_builder insert_at")
+
+
+def gval_push(guards):
+    for g, v in guards.items():
+        m = re.fullmatch(r"p1 matches (Push|NoPush)(#\d+)?", g)
+        if m:
+            return v if m.group(1) == "Push" else not v
+    return None
+
+
 def adoption_inner_loop(ctx):
     """adoption agency, the inner loop (steps 4.13.x): node climbs the stack one position per iteration; reaching the formatting
     element ends the loop; after three iterations a node that is still listed is taken off the list; a node that is not (or no
@@ -619,7 +677,7 @@ def adoption_inner_loop(ctx):
            "html5ever tree_builder adoption_agency")
 
 
-FACTS = (adoption_inner_loop, marker_bounded, in_scope, implied_end_tags, pop_until, appropriate_place, any_other_end_tag, clear_to_marker, close_the_cell, reconstruct, adoption_bailouts)
+FACTS = (insert_an_element, adoption_inner_loop, marker_bounded, in_scope, implied_end_tags, pop_until, appropriate_place, any_other_end_tag, clear_to_marker, close_the_cell, reconstruct, adoption_bailouts)
 
 
 def run(ctx):
